@@ -21,6 +21,43 @@ fn bin() -> impl Options {
     bincode::DefaultOptions::new().with_limit(1 << 20)
 }
 
+/// a valid machine whose bincode encoding has exactly `target` bytes
+pub fn machine_of_size(target: u64) -> Option<Machine> {
+    use enum_map::enum_map;
+    use maybenot::event::Event;
+    use maybenot::state::{State, Trans};
+    let empty = || State::new(enum_map! { _ => vec![] });
+    let size = |m: &Machine| bin().serialized_size(m).ok();
+    let base = |k: usize, n: usize, a: u64, b: u64| {
+        let mut st: Vec<State> = (0..k).map(|_| empty()).collect();
+        if n > 0 {
+            st[0] = State::new(enum_map! { Event::NormalSent => (0..n).map(|j| Trans(j % k, 1.0 / (n as f32 + 1.0))).collect(), _ => vec![] });
+        }
+        Machine::new(a, 1.0, b, 1.0, st)
+    };
+    let one = size(&base(1, 0, 0, 0).ok()?)?;
+    let two = size(&base(2, 0, 0, 0).ok()?)?;
+    let per = two - one;
+    let k0 = ((target.saturating_sub(one)) / per + 1) as usize;
+    for k in (k0.saturating_sub(3)..=k0).rev() {
+        if k == 0 {
+            continue;
+        }
+        for n in 0..12usize {
+            for a in [0u64, 251, 70000, 1 << 33] {
+                for b in [0u64, 251, 70000, 1 << 33] {
+                    if let Ok(m) = base(k, n, a, b) {
+                        if bincode::DefaultOptions::new().serialized_size(&m).ok() == Some(target) {
+                            return Some(m);
+                        }
+                    }
+                }
+            }
+        }
+    }
+    None
+}
+
 fn mutate_bytes(r: &mut SplitMix64, b: &mut Vec<u8>) {
     if b.is_empty() {
         b.push(r.next() as u8);
@@ -72,6 +109,8 @@ pub fn run(seed: u64, n: usize, out: &str, only: Option<usize>) {
     let mut accepted_mutants = 0usize;
     let mut max_bytes = 0usize;
     let mut nsample = 0;
+    let mut nboundary = 0usize;
+    let mut boundary_sizes: Vec<u64> = vec![];
     for i in 0..n {
         let mut r = master.fork();
         if let Some(o) = only {
@@ -176,6 +215,20 @@ pub fn run(seed: u64, n: usize, out: &str, only: Option<usize>) {
             }
             _ => {
                 // the real pipeline: round trip, then hostile strings (no model case: a trivial codec case keeps indices aligned)
+                // encodings at the documented limit: exactly 1 MiB, one below, and small ones
+                let m = if nboundary < 2 {
+                    nboundary += 1;
+                    let target = (1u64 << 20) + 1 - nboundary as u64;
+                    match machine_of_size(target) {
+                        Some(b) => {
+                            boundary_sizes.push(target);
+                            b
+                        }
+                        None => m.clone(),
+                    }
+                } else {
+                    m.clone()
+                };
                 let s = m.serialize();
                 match catch_unwind(AssertUnwindSafe(|| Machine::from_str(&s))) {
                     Ok(Ok(m2)) => {
@@ -288,5 +341,5 @@ pub fn run(seed: u64, n: usize, out: &str, only: Option<usize>) {
         }
         let _ = from_mirror;
     }
-    writeln!(meta, "summary cases={} nontrivial={} violations={} kinds={:?} accepted_mutants={} max_bincode_bytes={}", n, distinct.len(), viol, kinds, accepted_mutants, max_bytes).unwrap();
+    writeln!(meta, "summary cases={} nontrivial={} violations={} kinds={:?} accepted_mutants={} max_bincode_bytes={} limit_boundary_sizes={:?}", n, distinct.len(), viol, kinds, accepted_mutants, max_bytes, boundary_sizes).unwrap();
 }
